@@ -312,8 +312,45 @@ func (r *Replayer) Run(idx int, b *Behaviour) error {
 		if before != after {
 			r.miss(len(b.Hist), "reads-wrote", before, after)
 		}
+		// the same reads once more while ANOTHER connection has a header insert in flight (a write transaction that has not
+		// committed: what the sync does to the store all the time): every answer is the answer of the committed store
+		if r.cur%3 == 1 && r.cur%8 != 0 && r.Fault.Kind == "" && os.Getenv("VERIF_INFLIGHT") != "0" {
+			if release, err := r.writeInFlight(); err == nil {
+				n0 := len(r.Out)
+				for i := range b.Q {
+					if k := b.Q[i].K; k == "export" || k == "import" {
+						continue
+					}
+					r.Queries++
+					r.runQuery(len(b.Hist), c, &b.Q[i])
+				}
+				release()
+				for i := n0; i < len(r.Out); i++ {
+					r.Out[i].Exp = "[while a header insert is in flight on another connection] " + r.Out[i].Exp
+				}
+				r.Stats["reads-with-write-in-flight"]++
+			} else {
+				r.Stats["write-in-flight-skipped"]++
+			}
+		}
 	}
 	return nil
+}
+
+// writeInFlight opens a write transaction on a second connection and inserts a header row without committing.
+func (r *Replayer) writeInFlight() (func(), error) {
+	// (a connection of the service's own pool, as chainService.Add uses one)
+	tx, err := r.S.DB.Begin()
+	if err != nil {
+		return nil, err
+	}
+	_, err = tx.Exec("INSERT INTO headers(hash, height, version, merkleroot, nonce, bits, header_state, chainwork, previous_block, timestamp, cumulated_work) VALUES(?,?,?,?,?,?,?,?,?,?,?)",
+		strings.Repeat("fe", 32), 4242, 1, strings.Repeat("ed", 32), 7, 545259519, "LONGEST_CHAIN", "2", strings.Repeat("00", 32), time.Unix(1700000000, 0), "999999")
+	if err != nil {
+		_ = tx.Rollback()
+		return nil, err
+	}
+	return func() { _ = tx.Rollback() }, nil
 }
 
 func (r *Replayer) realCum(abs int, orphan bool) string {
